@@ -1,5 +1,259 @@
-import BacVerif.Model.Schedule
+/-
+  C20 — A schedule shows the value its calendar dictates at every instant, never stale.
+
+  Property text → formal statement  (model: `BacVerif/Model/Schedule.lean`, the
+  tree after the four repairs in /verif/fixes/C20-*.patch; independent spec:
+  `BacVerif/Lemmas/SchedSpec.lean`)
+
+  * "date patterns (any/odd/even month, last/odd/even day, week-of-month,
+    day-of-week, open-ended ranges) match exactly the calendar dates they
+    denote"                  → `match_date_iff`, `match_weeknday_iff`, `match_range_iff`,
+                               `calendar_entry_iff`, `period_iff`; the calendar itself:
+                               `leap_rule`, `month_length_rule`, `succDay_is_next_ordinal`,
+                               `civil_inverts_ordinal`, `weekday_of_ordinal`
+  * "the evaluated value is the one BACnet prescribes: the latest
+    non-relinquished entry of the highest-priority exception in force that day,
+    otherwise the latest entry of that weekday's list, otherwise the default"
+                             → `eval_is_spec` (`specValue`; `latest_is_greatest` says
+                               that "last entry whose time has come" is the latest one)
+  * "The value cannot change between the evaluated instant and the
+    next-transition time reported with it"
+                             → `no_change_before_next`, `next_after_now`, `next_by_midnight`
+  * "so a schedule driven by that timer shows the right value at all times and
+    keeps running across days and across the edges of its effective period"
+                             → `rearm_strictly_future` (any instant: inside, before, after,
+                               at the edges of the period — no hypothesis on the period),
+                               `runs_forever`, `never_stale`, `write_rearms`
+
+  Hypotheses (all decidable, see the `example`s): `ValidTuple d` (a real
+  calendar date, weekday number 1..7), `ValidCfg` (period ends unspecified or
+  real dates, 7 daily lists or none, exception periods the standard defines,
+  priorities 1..16), `SortedCfg` (time lists ordered by time), `ProperCfg`
+  (entry times are times of day), instants before 2155-01-01 (`horizon`: in
+  year 2155 the year octet IS the wildcard 255 and `datetime_to_time` refuses it).
+  Not modelled: `time.mktime` under DST (runs use TZ=UTC); the timer is
+  assumed to fire exactly at its deadline (C14).
+-/
+import BacVerif.Lemmas.SchedRun
 namespace BacVerif.C20
 open BacVerif.Sched
-theorem placeholder : nextDay.h = 24 := rfl
+
+/-! ## the calendar -/
+
+theorem leap_rule (y : Nat) : isLeap y = true ↔ Leap (1900 + y) := isLeap_iff y
+
+theorem month_length_rule (y m : Nat) (h1 : 1 ≤ m) (h12 : m ≤ 12) :
+    daysInMonth y m = .ok (SpecMonthLen (1900 + y) m) := daysInMonth_ok y m h1 h12
+
+/-- the day after a real date is a real date with the next ordinal and the next weekday -/
+theorem succDay_is_next_ordinal (d : Date) (h : ValidDate d) :
+    ValidDate (succDay d) ∧
+    dayNum (succDay d).y (succDay d).m (succDay d).d = dayNum d.y d.m d.d + 1 :=
+  ⟨validDate_succDay d h, dayNum_succDay d h.1⟩
+
+/-- the model of `localtime` inverts the model of `mktime`, for every ordinal -/
+theorem civil_inverts_ordinal (n : Nat) :
+    ValidDate (civil n) ∧ dayNum (civil n).y (civil n).m (civil n).d = n :=
+  ⟨validDate_civil n, dayNum_civil n⟩
+
+theorem weekday_of_ordinal (n : Nat) : (civil n).w = n % 7 + 1 := dow_civil n
+
+/-- test (not a theorem about all dates): known anchors -/
+example : civil 59 = ⟨0, 3, 1, 4⟩ ∧ civil 424 = ⟨1, 3, 1, 5⟩ ∧ dayNum 70 1 1 = 25567 ∧
+    dayNum 100 2 29 = 36583 ∧ dowOf 36583 = 2 := by
+  decide +kernel
+
+/-! ## the matchers -/
+
+/-- `match_date` decides what the pattern denotes — every real date, EVERY pattern tuple -/
+theorem match_date_iff (d p : Date) (h : ValidTuple d) :
+    matchDate d p = .ok (decide (DenotesDate p d)) := matchDate_eq d p h
+
+/-- `match_weeknday` — every real date, every pattern with a week field the standard defines -/
+theorem match_weeknday_iff (d : Date) (mp wp dp : Nat) (h : ValidTuple d) (hv : ValidWeek wp) :
+    matchWeekNDay d mp wp dp = .ok (decide (DenotesWND mp wp dp d)) :=
+  matchWeekNDay_eq d mp wp dp h hv
+
+/-- `match_date_range` (repaired) — tuple comparison is ordinal comparison and
+    an unspecified end is open, on either side -/
+theorem match_range_iff (d s e : Date) (hd : ValidYMD d) (hs : RangeEnd s) (he : RangeEnd e) :
+    matchRange d s e = true ↔ DenotesRange s e d := matchRange_iff d s e hd hs he
+
+theorem calendar_entry_iff (d : Date) (e : CalEntry) (h : ValidTuple d) (hw : WFEntry e) :
+    dateInEntry d e = .ok (decide (DenotesEntry e d)) := dateInEntry_eq d e h hw
+
+theorem period_iff (d : Date) (p : Period) (h : ValidTuple d) (hw : WFPeriod p) :
+    periodMatch d p = .ok (decide (DenotesPeriod p d)) := periodMatch_eq d p h hw
+
+/-- the "always" period — the witness of defect #14 — is in force on every real date -/
+theorem always_period (d : Date) (hd : ValidYMD d) :
+    matchRange d ⟨255, 255, 255, 255⟩ ⟨255, 255, 255, 255⟩ = true := by
+  rw [match_range_iff d _ _ hd (Or.inl ⟨rfl, rfl, rfl⟩) (Or.inl ⟨rfl, rfl, rfl⟩)]
+  exact ⟨Or.inl ⟨rfl, rfl, rfl⟩, Or.inl ⟨rfl, rfl, rfl⟩⟩
+
+-- non-vacuity: a leap day, "last day of an even month", "last Tuesday", a half-open range
+example : ValidTuple ⟨100, 2, 29, 2⟩ := by decide
+example : DenotesDate ⟨255, 14, 32, 255⟩ ⟨100, 2, 29, 2⟩ := by decide
+example : ValidWeek 6 ∧ DenotesWND 255 6 2 ⟨100, 2, 29, 2⟩ := by decide
+example : RangeEnd ⟨255, 255, 255, 255⟩ ∧ RangeEnd ⟨100, 2, 29, 255⟩ ∧
+    DenotesRange ⟨255, 255, 255, 255⟩ ⟨100, 2, 29, 255⟩ ⟨100, 2, 29, 2⟩ ∧
+    ¬ DenotesRange ⟨255, 255, 255, 255⟩ ⟨100, 2, 29, 255⟩ ⟨100, 3, 1, 3⟩ := by decide +kernel
+
+/-! ## the value -/
+
+/-- in a time-ordered list the entry picked by `latest` is the one with the
+    greatest time that has come -/
+theorem latest_is_greatest {l : List TV} {t : Time} {e : TV} (hs : SortedTVs l)
+    (h : latest l t = some e) :
+    e ∈ l ∧ e.time.le t = true ∧ ∀ x ∈ l, x.time.le t = true → x.time.le e.time = true := by
+  unfold latest at h
+  have hmem : e ∈ l.filter fun e => e.time.le t := List.mem_of_getLast? h
+  have hsf : SortedTVs (l.filter fun e => e.time.le t) := List.Pairwise.filter _ hs
+  refine ⟨(List.mem_filter.mp hmem).1, (List.mem_filter.mp hmem).2, ?_⟩
+  intro x hx hxt
+  have hxf : x ∈ l.filter fun e => e.time.le t := List.mem_filter.mpr ⟨hx, hxt⟩
+  generalize (l.filter fun e => e.time.le t) = f at *
+  clear hmem hs hx hxt
+  induction f with
+  | nil => cases hxf
+  | cons a rest ih =>
+    cases rest with
+    | nil =>
+      simp at h hxf; subst h; subst hxf; exact Time.le_refl _
+    | cons b r =>
+      rw [List.getLast?_cons_cons] at h
+      rcases List.mem_cons.mp hxf with hxa | hxr
+      · subst hxa; exact sorted_head hsf e (List.mem_of_getLast? h)
+      · exact ih h (sorted_tail hsf) hxr
+
+/-- **eval is spec** -/
+theorem eval_is_spec (cfg : Cfg) (d : Date) (t : Time) (hv : ValidCfg cfg) (hs : SortedCfg cfg)
+    (hd : ValidTuple d) :
+    ∃ r, evalSchedule cfg d t = .ok r ∧ r.map Prod.fst = specValue cfg d t :=
+  eval_spec cfg d t hv hs hd
+
+/-- **no change before next** — for EVERY configuration, sorted or not: from
+    the evaluated time up to (excluding) the reported transition `eval`
+    returns the same value and the same transition -/
+theorem no_change_before_next {cfg : Cfg} {d : Date} {t t' : Time} {v : Nat} {n : Time}
+    (h : evalSchedule cfg d t = .ok (some (v, n))) (htt : t.le t' = true) (hn : t'.lt n = true) :
+    evalSchedule cfg d t' = .ok (some (v, n)) := eval_stable h htt hn
+
+/-- **next after now** — every configuration, every time of day -/
+theorem next_after_now {cfg : Cfg} {d : Date} {t : Time} {v : Nat} {n : Time}
+    (ht : t.lt nextDay = true) (h : evalSchedule cfg d t = .ok (some (v, n))) : t.lt n = true :=
+  eval_next_later ht h
+
+/-- the reported transition is an entry time of the configuration or the start of the next day -/
+theorem next_by_midnight {cfg : Cfg} {d : Date} {t : Time} {v : Nat} {n : Time}
+    (hp : ProperCfg cfg) (h : evalSchedule cfg d t = .ok (some (v, n))) :
+    n = nextDay ∨ n.Proper :=
+  eval_next_P (fun k => k = nextDay ∨ k.Proper) (Or.inl rfl)
+    (by rw [excList_eq]; exact fun se hse tv htv => Or.inr (hp.1 se hse tv htv))
+    (fun day hday tv htv => Or.inr (hp.2 day hday tv htv)) h
+
+/-! ### a concrete configuration meeting every hypothesis (non-vacuity) -/
+
+def anyDay : Period := .entry (.date ⟨255, 255, 255, 255⟩)
+
+/-- two exceptions with the SAME priority (the second one also relinquishes),
+    one with a lower priority on the last Friday of odd months from a calendar
+    reference, a weekly schedule, effective from 1900-03-01, open-ended (year 0
+    keeps the kernel evaluation of `civil` in the tests below shallow) -/
+def demo : Cfg :=
+  { effStart := ⟨0, 3, 1, 255⟩, effEnd := ⟨255, 255, 255, 255⟩
+    weekly := some (List.replicate 7
+      [⟨⟨8, 0, 0, 0⟩, .v 8⟩, ⟨⟨14, 0, 0, 0⟩, .null⟩, ⟨⟨17, 0, 0, 50⟩, .v 42⟩])
+    exc := some
+      [ ⟨.ref (some [.weekNDay 13 6 5, .range ⟨0, 12, 24, 255⟩ ⟨0, 12, 26, 255⟩]),
+          [⟨⟨0, 0, 0, 0⟩, .v 7⟩], 9⟩,
+        ⟨anyDay, [⟨⟨9, 0, 0, 0⟩, .v 1⟩, ⟨⟨10, 0, 0, 0⟩, .v 2⟩, ⟨⟨11, 0, 0, 0⟩, .null⟩], 5⟩,
+        ⟨anyDay, [⟨⟨12, 0, 0, 0⟩, .v 5⟩, ⟨⟨13, 0, 0, 0⟩, .null⟩], 5⟩ ]
+    dflt := 0 }
+
+example : ValidCfg demo ∧ SortedCfg demo ∧ ProperCfg demo ∧ demo.fault = false := by decide +kernel
+
+-- tests (kernel evaluation of single instances, not the theorems): the
+-- same-priority witness, the relinquish falling through to the weekly list and
+-- to the lower-priority exception, and the day before the effective period
+def outcome (r : Except SErr (Option (Nat × Time))) : Option (Option (Nat × Time)) :=
+  match r with
+  | .ok x => some x
+  | .error _ => none
+
+example : outcome (evalSchedule demo ⟨0, 3, 5, 1⟩ ⟨9, 30, 0, 0⟩) = some (some (1, ⟨10, 0, 0, 0⟩)) := by decide +kernel
+example : outcome (evalSchedule demo ⟨0, 3, 5, 1⟩ ⟨11, 30, 0, 0⟩) = some (some (8, ⟨12, 0, 0, 0⟩)) := by decide +kernel
+example : outcome (evalSchedule demo ⟨0, 3, 5, 1⟩ ⟨12, 30, 0, 0⟩) = some (some (5, ⟨13, 0, 0, 0⟩)) := by decide +kernel
+example : outcome (evalSchedule demo ⟨0, 3, 30, 5⟩ ⟨13, 30, 0, 0⟩) = some (some (7, ⟨24, 0, 0, 0⟩)) := by decide +kernel
+example : outcome (evalSchedule demo ⟨0, 2, 28, 3⟩ ⟨13, 30, 0, 0⟩) = some none := by decide +kernel
+example : specValue demo ⟨0, 3, 5, 1⟩ ⟨12, 30, 0, 0⟩ = some 5 := by decide +kernel
+example : ValidDate ⟨0, 3, 5, 1⟩ ∧ ValidDate ⟨0, 3, 30, 5⟩ ∧ ValidDate ⟨0, 2, 28, 3⟩ := by decide +kernel
+
+/-! ## the interpreter task -/
+
+/-- **the re-arming step**: for every state and every instant before 2155 —
+    inside, before, after or at an edge of the effective period (there is no
+    hypothesis about the period) — `process_task` raises nothing, sets the
+    present value to what `eval` says (or leaves it alone outside the period)
+    and installs the task for an instant strictly in the future, at the
+    latest the next midnight -/
+theorem rearm_strictly_future (cfg : Cfg) (st : IState) (now : Nat) (hf : cfg.fault = false)
+    (hv : ValidCfg cfg) (hp : ProperCfg cfg) (hh : now < horizon) :
+    ∃ r, evalSchedule cfg (dateOf now) (timeOf now) = .ok r ∧
+      processTask cfg st now =
+        ({ pv := (r.map Prod.fst).getD st.pv,
+           deadline := some (now / usPerDay * usPerDay + (waitFor r).us) }, none) ∧
+      now < now / usPerDay * usPerDay + (waitFor r).us ∧
+      now / usPerDay * usPerDay + (waitFor r).us ≤ (now / usPerDay + 1) * usPerDay :=
+  processTask_rearms cfg st now hf hv hp hh
+
+/-- a write to weeklySchedule / exceptionSchedule re-evaluates at once under
+    the new configuration and re-arms in the same way -/
+theorem write_rearms (cfg' : Cfg) (st : IState) (now : Nat) (hf : cfg'.fault = false)
+    (hv : ValidCfg cfg') (hp : ProperCfg cfg') (hh : now < horizon) :
+    ∃ pv w, scheduleChanged cfg' st now = ({ pv := pv, deadline := some w }, none) ∧ now < w := by
+  obtain ⟨r, _, h2, h3, _⟩ := processTask_rearms cfg' st now hf hv hp hh
+  exact ⟨_, _, h2, h3⟩
+
+/-- **runs forever**: the k-th evaluation of a timer-driven schedule (any k)
+    leaves the task installed strictly later, no later than the next
+    midnight, and the (k+1)-th evaluation happens exactly then -/
+theorem runs_forever (cfg : Cfg) (st0 : IState) (t0 : Nat) (hf : cfg.fault = false)
+    (hv : ValidCfg cfg) (hp : ProperCfg cfg) (k : Nat)
+    (hh : (trajectory cfg st0 t0 k).1 < horizon) :
+    ∃ w, (trajectory cfg st0 t0 k).2.deadline = some w ∧ (trajectory cfg st0 t0 k).1 < w ∧
+      w ≤ ((trajectory cfg st0 t0 k).1 / usPerDay + 1) * usPerDay ∧
+      (trajectory cfg st0 t0 (k + 1)).1 = w :=
+  runs_forever_step cfg st0 t0 hf hv hp k hh
+
+/-- **never stale**: at EVERY instant τ from the creation to 2155 the present
+    value — the one set by the last evaluation at or before τ, while the task
+    waits for an instant after τ — is the value BACnet prescribes for τ -/
+theorem never_stale (cfg : Cfg) (st0 : IState) (t0 : Nat) (hf : cfg.fault = false)
+    (hv : ValidCfg cfg) (hp : ProperCfg cfg) (hs : SortedCfg cfg) (τ : Nat) (h0 : t0 ≤ τ)
+    (hτ : τ < horizon) :
+    ∃ k w, (trajectory cfg st0 t0 k).1 ≤ τ ∧ (trajectory cfg st0 t0 k).2.deadline = some w ∧ τ < w ∧
+      (trajectory cfg st0 t0 (k + 1)).1 = w ∧
+      ∀ v, specValue cfg (dateOf τ) (timeOf τ) = some v → (trajectory cfg st0 t0 k).2.pv = v :=
+  never_stale_spec cfg st0 t0 hf hv hp hs τ h0 hτ
+
+/-- the same against `eval` itself, without the ordering hypothesis -/
+theorem never_stale_wrt_eval (cfg : Cfg) (st0 : IState) (t0 : Nat) (hf : cfg.fault = false)
+    (hv : ValidCfg cfg) (hp : ProperCfg cfg) (τ : Nat) (h0 : t0 ≤ τ) (hτ : τ < horizon) :
+    ∃ k w, (trajectory cfg st0 t0 k).1 ≤ τ ∧ (trajectory cfg st0 t0 k).2.deadline = some w ∧ τ < w ∧
+      (trajectory cfg st0 t0 (k + 1)).1 = w ∧
+      ∀ v n, evalSchedule cfg (dateOf τ) (timeOf τ) = .ok (some (v, n)) →
+        (trajectory cfg st0 t0 k).2.pv = v :=
+  never_stale_eval cfg st0 t0 hf hv hp τ h0 hτ
+
+-- tests: the schedule created on 1900-02-26 10:00 UTC, three days before its
+-- effective period: it does not crash, leaves the present value alone and
+-- waits for midnight; on 1900-03-01 00:00 it starts
+def t0demo : Nat := (56 * 86400 + 36000) * 1000000
+example : t0demo < horizon := by decide +kernel
+example : trajectory demo ⟨999, none⟩ t0demo 0 = (t0demo, ⟨999, some (57 * usPerDay)⟩) := by
+  decide +kernel
+example : trajectory demo ⟨999, none⟩ t0demo 3 = (59 * usPerDay, ⟨0, some (59 * usPerDay + 8 * 3600000000)⟩) := by
+  decide +kernel
+
 end BacVerif.C20
